@@ -104,6 +104,7 @@ func twCase(r *Run, opsF, caseLine string) string {
 		if valid {
 			twAdjacentOracle(r, caseLine, ops, out)
 		}
+		twLastWriteOracle(r, caseLine, ops, out)
 		if len(parts) == 0 {
 			return "-"
 		}
